@@ -266,6 +266,17 @@ MUTATIONS = [
      'desc': 'the edge from a fibre to its auto-inserted inline amplifier carries the nominal weight instead of the length',
      'edits': [('gnpy/core/network.py', "        network.add_edge(fiber, amp, weight=fiber.params.length)",
                 "        network.add_edge(fiber, amp, weight=0.01)")]},
+    {'id': 'c05-revert-lumped-same-position', 'props': ['C05'], 'tests': 'tests/test_science_utils.py tests/test_propagation.py',
+     'desc': 'revert of fix ecb71ad7: of several lumped losses at one position only the first is applied',
+     'edits': [('gnpy/core/science_utils.py', """        multiply.at(total_lumped_losses, inverse, lumped_losses)
+""", """        total_lumped_losses = lumped_losses[unique(concatenate((z_lumped_losses, z)), return_index=True)[1]]
+""")]},
+    {'id': 'c05-revert-raman-flag-off', 'props': ['C05'], 'tests': 'tests/test_science_utils.py tests/test_propagation.py',
+     'desc': 'revert of fix 9605e2f2: RamanFiber with pumps crashes when the Raman computation is off',
+     'edits': [('gnpy/core/science_utils.py', """        if not sim_params.raman_params.flag:
+            # Raman effects are not computed: the pumps are not in the profile and generate no noise
+            return zeros(spectral_info.number_of_channels)
+""", "")]},
     {'id': 'c11-revert-explicit-ispart', 'props': ['C11'], 'tests': 'tests/test_path_computation_functions.py tests/test_disjunction.py',
      'desc': 'revert of fix e50d35fe: explicit route returned without checking the listed nodes are crossed in order',
      'edits': [('gnpy/topology/request.py', "    if total_path is not None and ispart(nodes_list, total_path):",
